@@ -86,10 +86,12 @@ Section RefsInstance.
     intros H r Hr. rewrite refs_render in Hr. simpl in Hr. destruct o as [d|]; simpl in Hr; [|contradiction].
     eapply H; eauto.
   Qed.
-  Lemma R_dict ks o : (forall d, o = Some d -> G ks d) -> G ks (render (dict_sk o)).
+  Lemma R_dict ks o p : (forall d, o = Some d -> G ks d) -> (forall d, p = Some d -> G ks d) -> G ks (render (dict_sk o p)).
   Proof.
-    intros H r Hr. rewrite refs_render in Hr. simpl in Hr. rewrite app_nil_r in Hr.
-    destruct o as [d|]; simpl in Hr; [|contradiction]. eapply H; eauto.
+    intros H Hp r Hr. rewrite refs_render in Hr. simpl in Hr. rewrite app_nil_r in Hr.
+    apply in_app_iff in Hr. destruct Hr as [Hr|Hr].
+    - destruct o as [d|]; simpl in Hr; [|contradiction]. eapply H; eauto.
+    - destruct p as [d|]; simpl in Hr; [|contradiction]. eapply Hp; eauto.
   Qed.
   Lemma R_listall ks l : Forall (G ks) l -> forall r, In r (refs_list l) -> exists c, r = pfx ++ "/" ++ c /\ In c ks.
   Proof.
@@ -285,10 +287,12 @@ Proof.
   intros H. unfold Gm. rewrite meta_render. simpl. destruct o as [d|]; simpl; [|reflexivity].
   rewrite (H d eq_refl). reflexivity.
 Qed.
-Lemma M_dict ks o : (forall d, o = Some d -> Gm ks d) -> Gm ks (render (dict_sk o)).
+Lemma M_dict ks o p : (forall d, o = Some d -> Gm ks d) -> (forall d, p = Some d -> Gm ks d) -> Gm ks (render (dict_sk o p)).
 Proof.
-  intros H. unfold Gm. rewrite meta_render. simpl. destruct o as [d|]; simpl; [|reflexivity].
-  rewrite (H d eq_refl). reflexivity.
+  intros H Hp. unfold Gm. rewrite meta_render. simpl.
+  assert (Ho: ometa o = true) by (destruct o as [d|]; [apply (H d eq_refl)|reflexivity]).
+  assert (Hq: ometa p = true) by (destruct p as [d|]; [apply (Hp d eq_refl)|reflexivity]).
+  rewrite Ho, Hq. reflexivity.
 Qed.
 Lemma M_tuple ks l : Forall (Gm ks) l -> Gm ks (render (tuple_sk l)).
 Proof.
@@ -453,6 +457,12 @@ Section Total.
     - rewrite sf_wrap. exact (IHt st Hr).
     - rewrite sf_set. destruct (IHt st Hr) as [s [st1 E1]]. rewrite E1. eauto.
     - rewrite sf_dict. destruct (IHt st Hr) as [s [st1 E1]]. rewrite E1. eauto.
+    - rewrite sf_map. destruct Hr as [Hok Hcl]. cbn [ty_ok] in Hok. apply andb_true_iff in Hok. destruct Hok as [Hoa Hok'].
+      cbn [classes_of] in Hcl.
+      destruct (IHt2 st) as [s [st1 E1]]; [split; [exact Hoa|intros d Hd; apply Hcl; apply in_app_iff; left; exact Hd]|].
+      rewrite E1.
+      destruct (IHt1 st1) as [s2 [st2 E2]]; [split; [exact Hok'|intros d Hd; apply Hcl; apply in_app_iff; right; exact Hd]|].
+      rewrite E2. eauto.
     - rewrite sf_tuple. destruct Hr as [Hok Hcl]. rewrite ty_ok_tuple in Hok. rewrite classes_of_tuple in Hcl.
       destruct (map_st_total _ fuel ts H (ready_members fuel ts Hok Hcl) [] st) as [ss [st1 E1]]. rewrite E1. eauto.
     - rewrite sf_union. destruct Hr as [Hok Hcl]. rewrite ty_ok_union in Hok. rewrite classes_of_union in Hcl.
@@ -547,7 +557,7 @@ Qed.
 (* ---- overridden serialization: what the rewriting does ---- *)
 Lemma resolve_ty_noop t : resolve_ty [] [] t = t.
 Proof.
-  induction t using ty_ind'; try reflexivity; cbn [resolve_ty table_ov tykey apply_ov first_ser lookup]; try (rewrite IHt; reflexivity).
+  induction t using ty_ind'; try reflexivity; cbn [resolve_ty table_ov tykey apply_ov first_ser lookup]; try (rewrite IHt; reflexivity); try (rewrite IHt1, IHt2; reflexivity).
   all: f_equal; induction H as [|x r Hx Hr IH]; simpl; [reflexivity|rewrite Hx; f_equal; exact IH].
 Qed.
 
@@ -558,6 +568,7 @@ Fixpoint covered (dial conf: list (string * ov)) (t: ty) : bool :=
   | None =>
     match t with
     | TList a | TSet a | TDict a | TWrap a => covered dial conf a
+    | TMap k a => covered dial conf a && covered dial conf k
     | TTuple ts => forallb (covered dial conf) ts
     | TUnion ts => match ts with [] => false | _ => forallb (covered dial conf) ts end
     | TNamed _ n ts _ | TTyped n ts _ => str_nodup n && Nat.eqb (List.length n) (List.length ts) && forallb (covered dial conf) ts
@@ -578,6 +589,7 @@ Theorem covered_ok dial conf t : covered dial conf t = true -> ty_ok (resolve_ty
 Proof.
   induction t using ty_ind'; intros Hc; cbn [covered resolve_ty] in *;
     destruct (apply_ov (table_ov dial conf _) _) as [t'|] eqn:Ea; try exact Hc; try (cbn [ty_ok]; apply IHt; exact Hc).
+  - (* map *) cbn [ty_ok]. apply andb_true_iff in Hc. destruct Hc as [Ha Hk]. rewrite (IHt2 Ha), (IHt1 Hk). reflexivity.
   - (* tuple *) rewrite ty_ok_tuple. apply forallb_map_ok; assumption.
   - (* union *) rewrite ty_ok_union. destruct ts as [|t0 tr]; [discriminate|].
     cbn [map]. apply (forallb_map_ok dial conf (t0 :: tr)); assumption.
